@@ -189,7 +189,7 @@ def _eligible_poll(F, caller, t, stack):
 # callee suffix -> (enum of the receiver, discriminant of the "other" variant, what the other variant yields, payload variant)
 #   yields: "false" / "true" constant, or "arg1" = the default operand handed to map_or
 COMBINATORS = (("core::option::Option::is_some_and", ("0", "false", "Some")), ("core::option::Option::is_none_or", ("0", "true", "Some")),
-               ("core::option::Option::map_or", ("0", "arg1", "Some")),
+               ("core::option::Option::map_or", ("0", "arg1", "Some")), ("core::result::Result::map_or", ("1", "arg1", "Ok")),
                ("core::result::Result::is_ok_and", ("1", "false", "Ok")), ("core::result::Result::is_err_and", ("0", "false", "Err")),
                # value-producing forms: the other variant is handed on ("none" / "same"), the closure's result is wrapped ("Some" / "Ok") or not
                ("core::option::Option::map", ("0", "none", "Some", "opt:Some")), ("core::option::Option::and_then", ("0", "none", "Some", None)),
@@ -731,6 +731,8 @@ def _expand_combinator(F, body, det, byid, state, alloc_block, work, blk, spec, 
     try:
         threaded = _thread_returns(thr, hraw, ren, ret_ids, call_t, False, dest)
         otag = ("bool", yields == "true") if yields in ("true", "false") else ("opt", "None") if yields == "none" else ("res", "Err") if yields == "same" else None
+        if yields == "arg1" and len(t["args"]) > 1 and t["args"][1][0] == "c" and str(t["args"][1][1]).replace("const ", "") in ("true", "false"):
+            otag = ("bool", str(t["args"][1][1]).replace("const ", "") == "true")      # `map_or(true, ..)`: the default is a literal verdict
         if otag is not None and len(dest) == 1:
             def fresh(old):
                 nl = state["next_l"]
@@ -798,6 +800,8 @@ def _expand_combinator_fn(F, body, det, byid, state, alloc_block, work, blk, spe
                 byid[b_ret]["term"] = {"k": "goto", "t": tgt, "threaded_return": True}
                 threaded += 1
         otag = ("bool", yields == "true") if yields in ("true", "false") else ("opt", "None") if yields == "none" else ("res", "Err") if yields == "same" else None
+        if yields == "arg1" and len(t["args"]) > 1 and t["args"][1][0] == "c" and str(t["args"][1][1]).replace("const ", "") in ("true", "false"):
+            otag = ("bool", str(t["args"][1][1]).replace("const ", "") == "true")      # `map_or(true, ..)`: the default is a literal verdict
         if otag is not None and len(dest) == 1:
             def fresh(old):
                 nl = state["next_l"]
